@@ -311,7 +311,7 @@ OUTS = [["o1", "o2"], ["o3", "o4"], ["a", "o1"], ["o2", "o2"]]
 def _rand_value(rnd, names):
     r = rnd.random()
     if r < 0.55:
-        return {"k": "num", "v": rnd.choice([2, 3, 5, 7])}
+        return {"k": "num", "v": rnd.choice([0, 2, 3, 5, 7])}
     if r < 0.7:
         return {"k": "ia", "fn": "two", "args": []}
     if r < 0.9:
@@ -368,9 +368,9 @@ def rand_op(rnd: random.Random, m) -> dict:
     if kind in ("add_parameter", "update_parameter", "add_variable", "update_variable"):
         op["v"] = _rand_value(rnd, names)
     elif kind == "scale_parameter":
-        op["f"] = rnd.choice([2, 3])
+        op["f"] = rnd.choice([0, 2, 3])
     elif kind == "make_parameter_dynamic":
-        op["iv"] = {"k": "none"} if rnd.random() < 0.5 else {"k": "num", "v": 4}
+        op["iv"] = {"k": "none"} if rnd.random() < 0.5 else {"k": "num", "v": rnd.choice([4, 0])}
         fl = list(m.get_reaction_names()) + list(m.get_surrogate_reaction_names()) + ["nosuch"]
         op["st"] = {} if rnd.random() < 0.5 else {rnd.choice(fl): 2}
     elif kind == "make_variable_static":
